@@ -7,7 +7,8 @@ announcers; Announcement::verify checks self.signature by self.node over the wir
 encoding of self.message; relaying happens only behind handle_announcement=Ok(Some)
 and relay() filters out recorded relayers and the announcer; the store upsert is
 strictly-newer-only.  The relayer is recorded on every path that accepts or
-recognises an announcement (needed for the never-echo clause)."""
+recognises an announcement (needed for the never-echo clause). 
+The relayer bookkeeping (`relayed_by`) only grows, at the named sites."""
 import re
 
 from .. import cfg, rules, flow, sql
